@@ -95,8 +95,20 @@ def run_case(case):
         res.outcome("quarter_hours_converted", 1)
         res["sample"] = {"kind": "hours_to_month", "years": [y0, y1], "step_h": 0.25}
     elif k == "tables":
+        from ghedesigner.enums import TimestepType
+
         coords = [tuple(p) for p in case["coords"]]
         loads = make_loads(case["loads"])
+        # earlier outputs in the same process (a parameter study): tables built for another design first, inside this case,
+        # so that the history is part of the case and replays from a fresh interpreter
+        for prev in case.get("history", []):
+            pg = ghe_factory.make_ghe([tuple(p) for p in prev["coords"]], pipe="single", H=95.0, loads=make_loads(prev["loads"]), months=12)
+            pd = SimpleNamespace(ghe=pg, searchTracker=[])
+            pg.simulate(method=TimestepType.HYBRID)
+            om0 = _om.__new__(_om)
+            om0.get_hourly_loading_data(pd)
+            _om.get_borehole_location_data(pd)
+            _om.get_g_function_data(pd)
         ghe = ghe_factory.make_ghe(coords, pipe=case["pipe"], H=case["H"], loads=loads, months=case.get("months", 12), load_years=case.get("load_years"))
         captured = {}
         orig = ghe._simulate_detailed
@@ -106,7 +118,6 @@ def run_case(case):
             return orig(q_dot, time_values, g)
 
         ghe._simulate_detailed = spy
-        from ghedesigner.enums import TimestepType
 
         if case.get("hourly_first"):
             # select / size with the hybrid method, validate with the hourly one (the documented workflow), then build the tables
@@ -183,6 +194,10 @@ def main(run: core.Run, only=None):
     cases.append({"kind": "tables", "field": "2x2", "coords": [list(c) for c in FIELDS["2x2"]], "loads": "index", "pipe": "single", "H": 100.0, "months": 24, "hourly_first": True})
     cases.append({"kind": "tables", "field": "irregular", "coords": [list(c) for c in FIELDS["irregular"]], "loads": "index", "pipe": "single", "H": 90.0, "load_years": [2024]})
     cases.append({"kind": "tables", "field": "1", "coords": [list(c) for c in FIELDS["1"]], "loads": "office", "pipe": "coaxial", "H": 100.0, "months": 36, "hourly_first": True, "load_years": [2020]})
+    cases.append({"kind": "tables", "field": "2x2", "coords": [list(c) for c in FIELDS["2x2"]], "loads": "index", "pipe": "single", "H": 100.0,
+                  "history": [{"coords": [list(c) for c in FIELDS["irregular"]], "loads": "office"}]})
+    cases.append({"kind": "tables", "field": "L", "coords": [list(c) for c in FIELDS["L"]], "loads": "office", "pipe": "single", "H": 73.0,
+                  "history": [{"coords": [list(c) for c in FIELDS["1"]], "loads": "index"}, {"coords": [list(c) for c in FIELDS["2x2"]], "loads": "pattern"}]})
     run.drive(cases, family="tables")
     real = [{"engine": "B", "method": "nearsquare", "pipe": "single", "flow": "borehole", "load": "office"},
             {"engine": "B", "method": "rowwise", "pipe": "coaxial", "flow": "system", "load": "mirror"}]
